@@ -11,6 +11,7 @@ package main
 //	  => broken <why>                                                   (no go:generate line, unreadable file, generator error …)
 
 import (
+	"bytes"
 	"flag"
 	"fmt"
 	"go/ast"
@@ -308,6 +309,18 @@ func evalC18(op string, args []string) string {
 	regenerated, err := opts.generator().Generate(dict)
 	if err != nil {
 		return "differs generator-refuses-the-checked-in-dictionary:" + dsErrToken(err)
+	}
+	// "the generator's output" must be ONE text: further runs (fresh Generator values, freshly parsed
+	// dictionary) give the same bytes — iteration over a Go map in the generator would show here
+	for k := 0; k < 12; k++ {
+		d2, err := p.ParseFile(dictFile)
+		if err != nil {
+			return "broken dictionary:" + dsErrToken(err)
+		}
+		again, err := opts.generator().Generate(d2)
+		if err != nil || !bytes.Equal(again, regenerated) {
+			return "differs generator-output-varies-between-runs"
+		}
 	}
 	shipped, err := os.ReadFile(filepath.Join(dir, output))
 	if err != nil {
